@@ -99,6 +99,10 @@ class CsrDecWorld(World):
                 elif k < 30:
                     ops.append({"k": "raw", "addr": rng.bits(aw), "r": rng.below(2),
                                 "w": rng.below(2), "data": rng.bits(dw)})
+                elif k < 38:
+                    ops.append({"k": "weave", "reg": rng.below(16), "rn": rng.below(8),
+                                "wn": rng.below(8), "ord": [rng.below(3) for _ in range(6)],
+                                "gaps": [], "data": [rng.bits(dw) for _ in range(6)]})
                 else:
                     ops.append({"k": "txn", "reg": rng.below(16), "mode": rng.choice(["r", "w", "rw"]),
                                 "n": None if rng.chance(0.75) else rng.below(8),
